@@ -15,23 +15,23 @@ ASSUMPTIONS = []
 
 
 def run(ctx):
-    formatrules.constants(ctx)
-    formatrules.state_and_sizes_bits(ctx)
-    formatrules.packing(ctx)
+    ctx.step(formatrules.constants, ctx)
+    ctx.step(formatrules.state_and_sizes_bits, ctx)
+    ctx.step(formatrules.packing, ctx)
     R = {'events': ctx.rule('R09.5', 'emission languages: order, direction, width and guard of every section; max widths; index table', floor=20),
          'widths': 'R09.5', 'index': 'R09.5',
          'sizes': ctx.rule('R09.3', 'sizes byte: transition width in the high nibble, output width in the low nibble; provenance of the recorded widths', floor=5),
          'state': ctx.rule('R09.2', 'state byte: tags 11 / 10 / 0f, low six bits = common-input index or transition count', floor=8)}
-    layout.writer_rules(ctx, R)
-    formatrules.form_selection(ctx)
-    formatrules.delta_addressing(ctx)
-    formatrules.header_footer(ctx)
+    ctx.step(layout.writer_rules, ctx, R)
+    ctx.step(formatrules.form_selection, ctx)
+    ctx.step(formatrules.delta_addressing, ctx)
+    ctx.step(formatrules.header_footer, ctx)
     # the footer's first word is the NUMBER OF KEYS: the accounting of that counter is R01.2
     import rules.C01 as C01
     from rules.common import Anchors as _A
     a01 = _A(ctx.lib)
     if not a01.err:
-        C01.r01_2(ctx, a01)
+        ctx.step(C01.r01_2, ctx, a01)
     # the checksum clause of the format ("trailing word = masked CRC-32C of ALL preceding bytes") is the coverage rule of C08
     import rules.C08 as C08
     from rules.common import Anchors
@@ -39,9 +39,9 @@ def run(ctx):
     A = Anchors(ctx.lib)
     if not A.err:
         pv = Prover(ctx.lib)
-        C08.r08_1(ctx)
-        mf = C08.r08_2(ctx, A)
-        C08.r08_4(ctx, A, pv, mf, ctx.lib.fn(C08.SLICE16))
+        ctx.step(C08.r08_1, ctx)
+        mf = ctx.step(C08.r08_2, ctx, A)
+        ctx.step(C08.r08_4, ctx, A, pv, mf, ctx.lib.fn(C08.SLICE16))
         # "... of ALL preceding bytes" for every sink: the rolling sum must be fed exactly the bytes the sink accepted (R07.1)
         import rules.C07 as C07
-        C07.r07_1(ctx, A, pv)
+        ctx.step(C07.r07_1, ctx, A, pv)
